@@ -26,6 +26,9 @@ enum Op {
     ConnectRefused,
     ConnectNoHost,
     ConnectCancelled,
+    /// let the peer connect to the n-th live listener of this host and accept it
+    /// (the accepted stream's local port is the listener's port)
+    Accept(usize),
     /// drop the n-th live socket (index modulo number of live sockets)
     Drop(usize),
     Crash,
@@ -61,6 +64,8 @@ enum Sock {
     Udp(UdpSocket, u16),
     Lis(TcpListener, u16),
     Str(TcpStream, u16),
+    /// accepted stream (local port = the listener's port)
+    Acc(TcpStream, u16),
 }
 
 fn gen(seed: u64) -> Scn {
@@ -92,7 +97,8 @@ fn gen(seed: u64) -> Scn {
             12 if room => Op::ConnectRefused,
             13 if room => Op::ConnectNoHost,
             14 if room => Op::ConnectCancelled,
-            15..=18 if !live.is_empty() => Op::Drop(r.usize_below(1000)),
+            15..=16 if !live.is_empty() => Op::Drop(r.usize_below(1000)),
+            17..=18 if !live.is_empty() => if r.chance(0.5) { Op::Accept(r.usize_below(1000)) } else { Op::Drop(r.usize_below(1000)) },
             19 if r.chance(0.3) => Op::Crash,
             _ => {
                 if live.is_empty() {
@@ -125,6 +131,8 @@ fn gen(seed: u64) -> Scn {
 }
 
 struct Shared {
+    /// ports on host h the peer is asked to connect to
+    connect_requests: RefCell<std::collections::VecDeque<u16>>,
     next: Cell<usize>,
     want_crash: Cell<bool>,
     done: Cell<bool>,
@@ -183,6 +191,33 @@ async fn port_program(log: Log<Ev>, s: Scn, sh: Rc<Shared>) -> turmoil::Result {
                     Ok(Err(e)) => Res::Err(format!("{:?}", e.kind())),
                 }
             }
+            Op::Accept(k) => {
+                let listeners: Vec<usize> = socks.iter().enumerate().filter(|(_, x)| matches!(x, Sock::Lis(..))).map(|(i, _)| i).collect();
+                // every accepted stream occupies one of the PEER's ephemeral ports (same tiny
+                // range): keep at most two alive so the peer never runs out (documented panic)
+                let accepted_live = socks.iter().filter(|x| matches!(x, Sock::Acc(..))).count();
+                if listeners.is_empty() || accepted_live >= 2 {
+                    Res::Nothing
+                } else {
+                    let idx = listeners[k % listeners.len()];
+                    let Sock::Lis(l, port) = &socks[idx] else { unreachable!() };
+                    let port = *port;
+                    // a listener bound to localhost is not reachable from the peer
+                    if l.local_addr().map(|a| a.ip().is_loopback()).unwrap_or(true) {
+                        Res::Nothing
+                    } else {
+                        sh.connect_requests.borrow_mut().push_back(port);
+                        match tokio::time::timeout(Duration::from_millis(2 * s.lat_ms + 6 * s.tick_ms + 4), l.accept()).await {
+                            Ok(Ok((st, _))) => {
+                                socks.push(Sock::Acc(st, port));
+                                Res::Port(port)
+                            }
+                            Ok(Err(e)) => Res::Err(format!("{:?}", e.kind())),
+                            Err(_) => Res::Nothing,
+                        }
+                    }
+                }
+            }
             Op::Drop(k) => {
                 if socks.is_empty() {
                     Res::Nothing
@@ -197,7 +232,7 @@ async fn port_program(log: Log<Ev>, s: Scn, sh: Rc<Shared>) -> turmoil::Result {
                             drop(l);
                             Res::Dropped("listener".into(), p)
                         }
-                        Sock::Str(st, p) => {
+                        Sock::Str(st, p) | Sock::Acc(st, p) => {
                             drop(st);
                             Res::Dropped("stream".into(), p)
                         }
@@ -237,10 +272,38 @@ fn port_scenario(s: Scn) -> ScenarioOut {
     }
     let mut sim = b.build();
     let v6 = s.v6;
-    sim.host("peer", move || async move {
+    let sh = Rc::new(Shared { connect_requests: RefCell::new(Default::default()), next: Cell::new(0), want_crash: Cell::new(false), done: Cell::new(false) });
+    let sh_peer0 = sh.clone();
+    sim.host("peer", move || {
+        let sh_peer = sh_peer0.clone();
+        async move {
         let any = if v6 { "::" } else { "0.0.0.0" };
         let l = TcpListener::bind((any, 8000)).await?;
         let _blackhole = TcpListener::bind((any, 8002)).await?;
+        {
+            let sh = sh_peer.clone();
+            tokio::task::spawn_local(async move {
+                loop {
+                    let req = sh.connect_requests.borrow_mut().pop_front();
+                    match req {
+                        Some(port) => {
+                            tokio::task::spawn_local(async move {
+                                if let Ok(mut st) = TcpStream::connect(("h", port)).await {
+                                    let mut b = [0u8; 16];
+                                    loop {
+                                        match st.read(&mut b).await {
+                                            Ok(0) | Err(_) => break,
+                                            Ok(_) => {}
+                                        }
+                                    }
+                                }
+                            });
+                        }
+                        None => tokio::time::sleep(Duration::from_millis(1)).await,
+                    }
+                }
+            });
+        }
         loop {
             let (mut st, _) = l.accept().await?;
             tokio::task::spawn_local(async move {
@@ -254,8 +317,8 @@ fn port_scenario(s: Scn) -> ScenarioOut {
                 }
             });
         }
+        }
     });
-    let sh = Rc::new(Shared { next: Cell::new(0), want_crash: Cell::new(false), done: Cell::new(false) });
     {
         let log = log.clone();
         let sc = s.clone();
@@ -305,7 +368,9 @@ fn port_scenario(s: Scn) -> ScenarioOut {
     let desc = json!({"scenario": format!("{s:?}")});
     let mut exhausted_panic = false;
     if let Some(p) = &panic_msg {
-        if p.contains("ports exhausted") {
+        if p.contains("ports exhausted") && !p.contains("'h' ports exhausted") {
+            out.discarded = Some("documented panic on the peer host (harness-side exhaustion)".into());
+        } else if p.contains("ports exhausted") {
             // decided after the model has been replayed (documented panic when no port is free)
             exhausted_panic = true;
         } else {
@@ -393,6 +458,13 @@ fn port_scenario(s: Scn) -> ScenarioOut {
                                 desc.clone(),
                             ),
                         }
+                    }
+                    (Op::Accept(_), Res::Port(p)) => {
+                        out.count("accepted_streams", 1);
+                        if !lis.contains(p) {
+                            out.violate("accept-on-unknown-port", "C15|accept-on-unknown-port".into(), format!("op #{i}: accepted a stream on port {p} where the model has no listener"), desc.clone());
+                        }
+                        *strm.entry(*p).or_default() += 1;
                     }
                     (Op::ConnectRefused | Op::ConnectNoHost, Res::Err(k)) => {
                         out.count("refused_connects", 1);
@@ -652,6 +724,6 @@ fn fin() -> Finish<'static> {
             "the peer never resets streams, so a held TcpStream keeps its port until the harness drops it".into(),
         ],
         min_distinct: 100,
-        required_counters: vec!["ephemeral_assignments", "addr_in_use_observed", "refused_connects", "cancelled_connects", "crashes", "histories_with_wraparound", "final_table_checks", "regex_lookups", "reverse_lookups", "in_host_lookups"],
+        required_counters: vec!["ephemeral_assignments", "addr_in_use_observed", "refused_connects", "cancelled_connects", "crashes", "histories_with_wraparound", "final_table_checks", "accepted_streams", "regex_lookups", "reverse_lookups", "in_host_lookups"],
     }
 }
